@@ -307,6 +307,145 @@ theorem dheSKX_spec (c : DheCtx) (key : Bytes) :
         (a1 :: a2 :: (p ++ b1 :: b2 :: (g ++ c1 :: c2 :: ys))) ++ (algB ++ l1 :: l2 :: raw) := by simp
     rw [this, List.length_append, Nat.add_sub_cancel, List.take_left]
 
+/-! ### the client step after an accepted DHE ServerKeyExchange -/
+
+theorem verifyParameters_no_panic (c : DheCtx) (sig : Bytes) : verifyParameters c sig ≠ .panic := by
+  rcases verifyParameters_spec c sig with he | ⟨_, _, _, _, _, _, _, _, _, hok⟩
+  · rw [he]; simp
+  · rw [hok]; simp
+
+/-- the shape of everything an InsecureSkipVerify client accepts: three length-prefixed numbers with 0 < Ys < p, then
+    anything; it never panics -/
+theorem dheSKXSkipVerify_spec (c : DheCtx) (key : Bytes) :
+    dheSKXSkipVerify c key = .err ∨
+    ∃ a1 a2 p b1 b2 g c1 c2 ys sig,
+      key = a1 :: a2 :: (p ++ b1 :: b2 :: (g ++ c1 :: c2 :: (ys ++ sig))) ∧
+      be16 a1 a2 = p.length ∧ be16 b1 b2 = g.length ∧ be16 c1 c2 = ys.length ∧
+      0 < natOf ys ∧ natOf ys < natOf p ∧
+      dheSKXSkipVerify c key = .ok (p, g, ys) := by
+  unfold dheSKXSkipVerify
+  rcases readDH_spec key with he | ⟨a1, a2, p, k1, rfl, hp, h1⟩
+  · left; rw [he]
+  rw [h1]
+  simp only
+  rcases readDH_spec k1 with he | ⟨b1, b2, g, k2, rfl, hg, h2⟩
+  · left; rw [he]
+  rw [h2]
+  simp only
+  rcases readDH_spec k2 with he | ⟨c1, c2, ys, sig, rfl, hy, h3⟩
+  · left; rw [he]
+  rw [h3]
+  simp only
+  by_cases g1 : natOf ys = 0 ∨ natOf ys ≥ natOf p
+  · left; rw [if_pos g1]
+  rw [if_neg g1]
+  rw [sliceTo_eq _ _ (by omega)]
+  simp only
+  right
+  refine ⟨a1, a2, p, b1, b2, g, c1, c2, ys, sig, rfl, hp, hg, hy,
+    Nat.pos_of_ne_zero (fun h => g1 (Or.inl h)), Nat.lt_of_not_le (fun h => g1 (Or.inr h)), ?_⟩
+  cases hv : verifyParameters c sig with
+  | ok r => rfl
+  | err => rfl
+  | panic => exact absurd hv (verifyParameters_no_panic c sig)
+
+/-! `big.Int.Bytes` / `SetBytes` arithmetic -/
+
+theorem natOf_append_one (l : Bytes) (b : UInt8) : natOf (l ++ [b]) = natOf l * 256 + b.toNat := by
+  unfold natOf
+  rw [List.foldl_append]
+  rfl
+
+theorem natOf_bytesOfNat (n : Nat) : natOf (bytesOfNat n) = n := by
+  induction n using Nat.strongRecOn with
+  | _ n ih =>
+    rw [bytesOfNat]
+    by_cases h : n = 0
+    · rw [dif_pos h, h]; rfl
+    · rw [dif_neg h, natOf_append_one, ih (n / 256) (by omega)]
+      have : (UInt8.ofNat (n % 256)).toNat = n % 256 := by
+        simp
+      omega
+
+theorem bytesOfNat_length (k n : Nat) (h : n < 256 ^ k) : (bytesOfNat n).length ≤ k := by
+  induction k generalizing n with
+  | zero =>
+    have : n = 0 := by simpa using h
+    subst this
+    rw [bytesOfNat]; simp
+  | succ k ih =>
+    rw [bytesOfNat]
+    by_cases h0 : n = 0
+    · rw [dif_pos h0]; simp
+    · rw [dif_neg h0, List.length_append]
+      have : n / 256 < 256 ^ k := by
+        rw [Nat.pow_succ] at h
+        exact Nat.div_lt_of_lt_mul (by omega)
+      have := ih (n / 256) this
+      simp
+      omega
+
+theorem foldl_lt (l : Bytes) (acc : Nat) :
+    l.foldl (fun a b => a * 256 + b.toNat) acc < (acc + 1) * 256 ^ l.length := by
+  induction l generalizing acc with
+  | nil => simp
+  | cons b r ih =>
+    rw [List.foldl_cons, List.length_cons, Nat.pow_succ]
+    have h1 := ih (acc * 256 + b.toNat)
+    have hb := b.toNat_lt
+    have h2 : (acc * 256 + b.toNat + 1) * 256 ^ r.length ≤ ((acc + 1) * 256) * 256 ^ r.length :=
+      Nat.mul_le_mul_right _ (by omega)
+    calc _ < (acc * 256 + b.toNat + 1) * 256 ^ r.length := h1
+      _ ≤ ((acc + 1) * 256) * 256 ^ r.length := h2
+      _ = (acc + 1) * (256 ^ r.length * 256) := by rw [Nat.mul_assoc, Nat.mul_comm 256]
+
+theorem natOf_lt (l : Bytes) : natOf l < 256 ^ l.length := by
+  have := foldl_lt l 0
+  simpa [natOf] using this
+
+theorem be16_ofNat (l : Nat) (h : l < 65536) : be16 (UInt8.ofNat (l / 256)) (UInt8.ofNat (l % 256)) = l := by
+  unfold be16
+  have h1 : (UInt8.ofNat (l / 256)).toNat = l / 256 := by
+    simp; omega
+  have h2 : (UInt8.ofNat (l % 256)).toNat = l % 256 := by
+    simp
+  omega
+
+/-- the ClientKeyExchange a client produces after an accepted DHE ServerKeyExchange is well-formed for the server-side
+    parser with the same modulus: accepted exactly when Yc ≠ 0, and then parsed back to Yc -/
+theorem dheGenCKX_roundtrip (p g ys : Bytes) (x : Nat) (hp : p.length ≤ 65535) (h0 : 0 < natOf p)
+    (t a b c : UInt8) :
+    ∃ ct pms, dheGenCKX p g ys x = .ok (ct, pms) ∧ natOf pms = natOf ys ^ x % natOf p ∧
+      (be24 a b c = ct.length → natOf g ^ x % natOf p ≠ 0 →
+        ckxMsg (.dhe p) (t :: a :: b :: c :: ct) = .ok (bytesOfNat (natOf g ^ x % natOf p))) := by
+  unfold dheGenCKX
+  rw [if_neg (by omega)]
+  refine ⟨_, _, rfl, natOf_bytesOfNat _, ?_⟩
+  intro h24 hne
+  generalize hn : natOf g ^ x % natOf p = n at *
+  have hlt : n < natOf p := by rw [← hn]; exact Nat.mod_lt _ h0
+  have hlen : (bytesOfNat n).length ≤ 65535 := by
+    have := bytesOfNat_length p.length n (Nat.lt_trans hlt (natOf_lt p))
+    omega
+  unfold ckxMsg ckxUnmarshal
+  simp only [List.length_cons] at h24 ⊢
+  rw [if_neg (by omega)]
+  simp only [idx, List.getElem?_cons_succ, List.getElem?_cons_zero]
+  rw [if_neg (by omega)]
+  rw [sliceFrom_eq _ _ (by simp)]
+  simp only [List.drop_succ_cons, List.drop_zero]
+  unfold dheCKX
+  simp only [List.length_cons]
+  rw [if_neg (by omega)]
+  simp only [idx, List.getElem?_cons_succ, List.getElem?_cons_zero]
+  rw [be16_ofNat _ (by omega)]
+  rw [if_neg (by omega)]
+  rw [sliceFrom_eq _ _ (by simp)]
+  simp only [List.drop_succ_cons, List.drop_zero]
+  rw [natOf_bytesOfNat]
+  rw [if_neg (by omega)]
+
+
 /-! ### ClientKeyExchange -/
 
 theorem rsaCKX_spec (ct : Bytes) :
